@@ -167,7 +167,13 @@ fn main() {
         rep.evaluations += 1;
         rep.distinct += 1;
         let s = seed.wrapping_mul(1000003).wrapping_add(i as u64);
-        match catch(|| rt.block_on(one(&case, s))) {
+        let timed = async {
+            match tokio::time::timeout(std::time::Duration::from_secs(8), one(&case, s)).await {
+                Ok(r) => r,
+                Err(_) => Err(("noise_stuck".to_string(), "the stream neither completed nor failed within 8 s on a cooperative transport (livelock / runaway writer)".to_string())),
+            }
+        };
+        match catch(|| rt.block_on(timed)) {
             Err(p) => rep.fail("noise_panic", format!("panic: {p}"), json!({"case": case, "seed": s})),
             Ok(Err((key, what))) if key == "DRIFT" => {
                 rep.count("drift");
@@ -177,6 +183,10 @@ fn main() {
             }
             Ok(Err((key, what))) => rep.fail(key, what, json!({"case": case, "seed": s})),
             Ok(Ok(())) => {}
+        }
+        if rep.failures.len() >= 5 {
+            rep.notes.push("stopped after 5 failures".into());
+            break;
         }
         if i % 977 == 0 {
             rep.sample(json!({"ops": case["ops"], "frames": case["frames"], "tamper": case["tamper"], "at": case["at"], "out": case["out"]}));
